@@ -110,7 +110,7 @@ func runC05(c *core.Ctx) {
 		checkReplyLoop(c, fn, helper)
 	}
 	runR51(c)
-	c.Share(map[string]string{"R4.12": "R5.6"}, runC04) // "with that set's flags": the flags travel through the metadata record
+	c.Share(map[string]string{"R4.12": "R5.6", "R4.7": "R5.8"}, runC04) // "with that set's flags": the flags travel through the metadata record
 }
 
 func checkReplyLoop(c *core.Ctx, fn, helper *ssa.Function) {
